@@ -393,6 +393,7 @@ type FuncContract struct {
 	NoInline  bool
 	Fresh     []int // result indexes that are fresh allocations
 	Decreases *Clause
+	NoGlobals bool   // the function must not read mutable package-level variables (state shared between instances)
 	LastCall  string // higher-order summary: the function's outcome is that of the last call of this func-typed parameter
 	Notes     []string
 	Src       string
@@ -426,6 +427,7 @@ type TypeContract struct {
 }
 
 type GlobalInv struct {
+	VarOnly bool // the invariant speaks about the variable's value only (not about map/slice contents)
 	Pkg    string
 	Global string
 	Clause *Clause
@@ -446,7 +448,7 @@ func NewContracts() *Contracts {
 	return &Contracts{Ghosts: map[string]Sort{}, Funcs: map[string]*FuncContract{}, Specs: map[string]*SpecFunc{}, Types: map[string]*TypeContract{}}
 }
 
-var clauseHead = regexp.MustCompile(`^(requires|ensures|assert)(\[[A-Za-z0-9, ]*\])?\s+(.*)$`)
+var clauseHead = regexp.MustCompile(`^(requires|ensures|trusted_ensures|assert)(\[[A-Za-z0-9, ]*\])?\s+(.*)$`)
 var labelRe = regexp.MustCompile(`^([A-Za-z_][A-Za-z0-9_.\-]*):\s+(.*)$`)
 var specFuncRe = regexp.MustCompile(`^spec\s+func\s+([A-Za-z_][A-Za-z0-9_]*)\s*\(([^)]*)\)\s*([A-Za-z_][A-Za-z0-9_]*)\s*(=\s*(.*)|uninterpreted)\s*$`)
 
@@ -464,7 +466,7 @@ func (cs *Contracts) ParseContractFile(path string, pkgName string, isSpec bool)
 		line int
 	}
 	var lines []lline
-	heads := []string{"func ", "type ", "spec ", "axiom ", "lemma ", "global ", "props ", "arith ", "requires", "ensures", "assigns", "loop ", "pure", "trusted", "trustframe", "noinline", "fresh ", "note ", "assert", "invariant ", "invariant[", "guarded_by ", "immutable", "decreases ", "ghost ", "lastcall "}
+	heads := []string{"func ", "type ", "spec ", "axiom ", "lemma ", "global ", "props ", "arith ", "requires", "ensures", "trusted_ensures", "assigns", "loop ", "pure", "trusted", "trustframe", "noglobals", "noinline", "fresh ", "note ", "assert", "invariant ", "invariant[", "guarded_by ", "immutable", "decreases ", "ghost ", "lastcall "}
 	for i, raw := range strings.Split(string(data), "\n") {
 		s := strings.TrimSpace(raw)
 		if !strings.HasPrefix(s, "//@") {
@@ -572,7 +574,10 @@ func (cs *Contracts) ParseContractFile(path string, pkgName string, isSpec bool)
 		case strings.HasPrefix(s, "global "):
 			// global <name> invariant[Cxx] label: expr
 			f := strings.Fields(s)
-			if len(f) < 4 || !strings.HasPrefix(f[2], "invariant") {
+			varOnly := false
+			if len(f) >= 4 && strings.HasPrefix(f[2], "varinvariant") {
+				varOnly = true
+			} else if len(f) < 4 || !strings.HasPrefix(f[2], "invariant") {
 				cs.Errors = append(cs.Errors, src+": bad global clause")
 				continue
 			}
@@ -582,7 +587,7 @@ func (cs *Contracts) ParseContractFile(path string, pkgName string, isSpec bool)
 			}
 			rest := strings.TrimSpace(strings.SplitN(s, f[2], 2)[1])
 			if c := mkClause("globalinv", tag, rest, src); c != nil {
-				cs.Globals = append(cs.Globals, &GlobalInv{Pkg: pkgName, Global: f[1], Clause: c})
+				cs.Globals = append(cs.Globals, &GlobalInv{Pkg: pkgName, Global: f[1], Clause: c, VarOnly: varOnly})
 			}
 			curF, curT = nil, nil
 		case strings.HasPrefix(s, "axiom ") || strings.HasPrefix(s, "lemma "):
@@ -632,6 +637,8 @@ func (cs *Contracts) ParseContractFile(path string, pkgName string, isSpec bool)
 			curF.Pure = true
 		case s == "trusted":
 			curF.Trusted = true
+		case s == "noglobals":
+			curF.NoGlobals = true
 		case s == "trustframe":
 			curF.TrustFrame = true
 		case s == "noinline":
@@ -727,6 +734,9 @@ func (cs *Contracts) ParseContractFile(path string, pkgName string, isSpec bool)
 			case "requires":
 				curF.Requires = append(curF.Requires, c)
 			case "ensures":
+				curF.Ensures = append(curF.Ensures, c)
+			case "trusted_ensures":
+				c.Kind = "trusted_ensures"
 				curF.Ensures = append(curF.Ensures, c)
 			}
 		}
